@@ -1,3 +1,7 @@
 -- root of the library: every property module (models, lemmas and Gen files come in transitively)
 import TdVerif.Props.C18
 import TdVerif.Props.C13
+import TdVerif.Props.C02
+import TdVerif.Props.C04
+import TdVerif.Props.C09
+import TdVerif.Props.C14
